@@ -30,6 +30,7 @@ func C14(c *core.Ctx) {
 	c14EnvelopeMembers(c)
 	c14Pow(c)
 	c14NilElems(c)
+	c14NilPointers(c)
 }
 
 // nilSafeReceiver decides whether every dereference of the receiver in a
